@@ -310,6 +310,17 @@ pub fn run_case_mode(c: &Case, paths_only: bool) -> CaseOut {
             }
             let mask = Array1::from(refpt.iter().map(|v| v.is_none()).collect::<Vec<_>>());
             s.remove_axes(&mask).expect("remove_axes");
+            if *elim {
+                // the sliced tree must be usable like any other: on a copy, one more layer is composed and pruned (the
+                // caches left by the first pruning run live in the reduced space now); a panic is reported below
+                let od = s.tree.terminals().next().map(|t| t.value.aff.outdim()).unwrap_or(0);
+                if od >= 1 {
+                    let mut probe = s.clone();
+                    probe.compose::<false, false>(&schema::partial_ReLU(od, 0));
+                    probe.infeasible_elimination();
+                    probe.compose::<true, false>(&schema::partial_ReLU(od, od - 1));
+                }
+            }
             // embedding of the kept axes
             let kept: Vec<usize> = (0..n).filter(|i| refpt[*i].is_none()).collect();
             let k = kept.len();
